@@ -40,6 +40,8 @@ type sentenceResult struct {
 	Env      *gram.Env
 	Guard    *gram.Guard
 	Log      []attempt
+	// LogTruncated: the attempt log reached its cap; the furthest failure can no longer be computed from it
+	LogTruncated bool
 	RootEnds map[int]bool // ends of the alternatives the root returned at offset 0
 	Node     parsley.Node
 	Value    interface{}
@@ -117,6 +119,8 @@ func runSentence(c GCase, o sentenceOpts) *sentenceResult {
 			n, cp, err := p.Parse(ctx, lrc, pos)
 			if len(res.Log) < 20000 {
 				res.Log = append(res.Log, attempt{int(pos) - env.Base, what, n != nil, term, n == nil && err != nil})
+			} else {
+				res.LogTruncated = true
 			}
 			return n, cp, err
 		})
